@@ -47,4 +47,8 @@ func init() {
 		"	bodyCtx := loopCtx.EnterLoop(context.LoopEntry{\n		BreakDepth:    breakDepth,\n		ContinueDepth: continueDepth,\n	})\n\n	if block := ctx.AST.Block(); block != nil {\n		if _, err = CompileBlock(context.Child(bodyCtx, block)); err != nil {\n			return err\n		}\n	}\n\n	// end block $continue\n	ctx.Writer.WriteEnd()\n\n	ctx.Writer.WriteLocalGet(loopVarIdx)", "	bodyCtx := loopCtx.EnterLoop(context.LoopEntry{\n		BreakDepth:    continueDepth,\n		ContinueDepth: breakDepth,\n	})\n\n	if block := ctx.AST.Block(); block != nil {\n		if _, err = CompileBlock(context.Child(bodyCtx, block)); err != nil {\n			return err\n		}\n	}\n\n	// end block $continue\n	ctx.Writer.WriteEnd()\n\n	ctx.Writer.WriteLocalGet(loopVarIdx)", "C19.R11.depth")
 	mut("C19", "Child drops the block depth", cx,
 		"		blockDepth:       ctx.blockDepth,\n", "", "C19.R11.depth")
+
+	// ---------------- C19.R12
+	mut("C19", "the range limit is compared against the user's variable", "arc/go/compiler/statement/loop.go",
+		"	limitSym, err := loopScope.Resolve(ctx, \"__for_limit\")", "	limitSym, err := loopScope.Resolve(ctx, endExpr.GetText())", "C19.R12.bound")
 }
